@@ -1,6 +1,8 @@
 import warnings
 from typing import List
 
+import numpy as np
+
 from classy_blocks.base.element import ElementBase
 from classy_blocks.base.exceptions import EdgeCreationError
 from classy_blocks.construct.curves.curve import CurveBase
@@ -28,6 +30,10 @@ class EdgeData(ElementBase):
     def representation(self) -> EdgeKindType:
         # what goes into blockMeshDict's edge definition
         return self.kind
+
+    def reverse(self) -> None:
+        """Called when the start and the end of the edge swap places (Face.invert());
+        kinds whose data depends on the direction of the edge adapt it here"""
 
 
 class Line(EdgeData):
@@ -95,6 +101,10 @@ class Angle(EdgeData):
 
     def scale(self, ratio, origin=None):
         """Axis is not to be scaled"""
+
+    def reverse(self) -> None:
+        """The same arc, seen from the other end, turns the other way"""
+        self.angle = -self.angle
 
     @property
     def parts(self):
@@ -172,6 +182,10 @@ class Spline(OnCurve):
     def __init__(self, points: PointListType):
         curve = DiscreteCurve(points)
         super().__init__(curve, n_points=len(points), representation=self.kind)
+
+    def reverse(self) -> None:
+        """Points are listed from the start to the end of the edge"""
+        self.curve.array.points = np.flip(self.curve.array.points, axis=0)
 
     @property
     def parts(self):
